@@ -67,6 +67,15 @@ def gen_cases(out, explore):
         while any(pools):
             p = rnd.choice([q for q in pools if q])
             flat.append(p.pop(0))
+        order = rnd.choice(["chrono", "chrono", "shuffled", "newest_first", "long_first"])
+        if order == "shuffled":
+            rnd.shuffle(flat)
+        elif order == "newest_first":
+            flat.sort(key=lambda e: -e["st"])
+        elif order == "long_first":
+            # a long-running span that is both the earliest start and the latest end arrives first
+            flat = [dict(id=nid, par=None, job=902, name=9, ty=1, st=t0, en=t0 + extent, app=1)] + flat[2:]
+            nid += 1
         cases.append(dict(events=flat, buf=buf, bs=rnd.choice([1, 3, 1000])))
     return cases
 
@@ -133,7 +142,7 @@ def run_impl(case, d, k):
 def oracle(case, res):
     nodes0, assoc0, _ = res["before"]
     b = case["buf"] * MIN
-    mn, mx = res["mn"], res["mx"]
+    mn, mx = min(e["st"] for e in case["events"]), max(e["en"] for e in case["events"])   # the ingestion extent itself
     emn = 0 if mn > mx else mn
     emx = 2**63 - 1 if mx < mn else mx
     lo, hi = emn + b, emx - b
@@ -175,19 +184,19 @@ def cases_v(items) -> str:
     for case, res in items:
         nodes0, assoc0, _ = res["before"]
         exp = "None" if res["status"] != "ok" else f"(Some ({S.coq_nodes(res['nodes'])}, {S.coq_pairs(res['assoc'])}))"
-        rows.append(f"(({coq_z(case['buf'])}, {coq_z(res['mn'])}, {coq_z(res['mx'])}, {S.coq_store(nodes0, assoc0)}), {exp})")
+        rows.append(f"(({coq_z(case['buf'])}, {S.coq_nodes(case['events'])}, {S.coq_store(nodes0, assoc0)}), {exp})")
     body = ";\n ".join(rows)
     return f"""From Coq Require Import ZArith List Bool. Import ListNotations.
 From V Require Import Store.Rel Store.Clean.
 Open Scope positive_scope.
-Definition run (c : Z * Z * Z * store) : option (list node * list (positive * positive)) :=
-  let '(b, mn, mx, st) := c in
-  match window b mn mx with Some w => Some (db (clean w st), assoc (clean w st)) | None => None end.
+Definition run (c : Z * list node * store) : option (list node * list (positive * positive)) :=
+  let '(b, evs, st) := c in
+  match window b (fst (track evs)) (snd (track evs)) with Some w => Some (db (clean w st), assoc (clean w st)) | None => None end.
 Definition oeq (a b : option (list node * list (positive * positive))) : bool :=
   match a, b with
   | Some x, Some y => list_eqb node_eqb (fst x) (fst y) && list_eqb pair_eqb (snd x) (snd y)
   | None, None => true | _, _ => false end.
-Definition cases : list ((Z * Z * Z * store) * option (list node * list (positive * positive))) := [
+Definition cases : list ((Z * list node * store) * option (list node * list (positive * positive))) := [
  {body}].
 Eval vm_compute in (1%nat, idx (fun c => oeq (run (fst c)) (snd c)) cases).
 """
